@@ -326,12 +326,12 @@ class Ctx:
         self.bins[key] = out
         return out
 
-    def run_vh(self, args, timeout=1800, env=None, stdin=None, check=True, race=False):
+    def run_vh(self, args, timeout=1800, env=None, stdin=None, check=True, race=False, cwd=None):
         vh = self.build_harness(race=race)
         t = time.time()
         try:
             r = subprocess.run([vh] + args, capture_output=True, text=True, timeout=timeout,
-                               env=goenv(env), input=stdin, cwd=self.scratch)
+                               env=goenv(env), input=stdin, cwd=cwd or self.scratch)
         except subprocess.TimeoutExpired:
             raise Infra("harness timed out: vh %s" % " ".join(args))
         log("vh %s: rc=%d %.1fs" % (" ".join(args[:3]), r.returncode, time.time() - t))
